@@ -223,7 +223,7 @@ def _canonical_reference(doc: dict[str, Any]) -> dict[str, Any]:
     computed in a process forked from the pristine image."""
     from detsim import world
 
-    world.install_log_sink()
+    world.reference_process_state()
     world.drain_log()
     try:
         canon = world.parse_text(gen.render(doc))
